@@ -79,11 +79,19 @@ def _instantiate_round(quants, table, out, keys, cap):
         if n > 2:
             continue
         cands = []
+        explicit_only = False
         for pi in range(q.num_patterns()):
             pat = q.pattern(pi)
             if pat.num_args() == 1:           # multi-patterns are left to the solver
-                cands.append(pat.arg(0))
-        if n == 1:
+                t_ = pat.arg(0)
+                if z3.is_app(t_) and t_.decl().name() == 'inst_mark' and z3.is_app(t_.arg(0)) and not z3.is_var(t_.arg(0)):
+                    # mark(f(x)): a pattern for THIS instantiation only (the solver never sees an inst_mark term, so it never
+                    # instantiates the quantifier by e-matching); no other candidate terms are taken from the body
+                    cands.append(t_.arg(0))
+                    explicit_only = True
+                else:
+                    cands.append(t_)
+        if n == 1 and not explicit_only:
             have = set(c.get_id() for c in cands)
             for t in _subterms(q.body()):
                 if z3.is_app(t) and t.decl().kind() == z3.Z3_OP_UNINTERPRETED and t.num_args() >= 1 and t.get_id() not in have \
